@@ -52,7 +52,8 @@ def decide(eng, pc, violated, *, prop, ob_id, res, known: Known, features, env, 
         # a violation that no listed finding covers
         if max_replays[0] <= 0:
             res["violations_unreplayed"] = res.get("violations_unreplayed", 0) + 1
-            res["inconclusive"].append(f"{ob_id}: further counterexample not replayed (replay budget): {what}")
+            if res["violations_unreplayed"] <= 1:
+                res["inconclusive"].append(f"{ob_id}: further counterexample not replayed (replay budget): {what}")
             return "violated"
         max_replays[0] -= 1
         payload = make_replay(m)
